@@ -480,4 +480,71 @@ impl StateTableDriver<kerx::Subtable4<'_>, kerx::EntryData> for Driver4<'_> {
 #[allow(unused_imports, dead_code, missing_docs)]
 pub mod verif_hooks {
     use super::*;
+    use crate::hb::ot_layout_gpos_table::verif_hooks::{mk_pos, rd_pos, P};
+    use crate::Direction;
+    use alloc::vec::Vec;
+
+    /// (glyph id, mask, glyph_props, unicode_props)
+    pub type I = (u32, u32, u16, u16);
+
+    /// `apply` (the kerx subtable driver) on a bare buffer; the subtables are the face's own `kerx`
+    /// table. Returns (glyph ids in buffer order, positions, HAS_GPOS_ATTACHMENT set).
+    pub fn kerx_driver(
+        plan: &hb_ot_shape_plan_t,
+        face: &hb_font_t,
+        infos: &[I],
+        pos: &[P],
+        len: usize,
+        direction: Direction,
+    ) -> (Vec<u32>, Vec<P>, bool) {
+        let mut b = hb_buffer_t::new();
+        b.direction = direction;
+        b.pos = pos.iter().map(|p| mk_pos(*p)).collect();
+        b.info = infos
+            .iter()
+            .enumerate()
+            .map(|(k, i)| {
+                let mut g = hb_glyph_info_t::default();
+                g.glyph_id = i.0;
+                g.mask = i.1;
+                g.cluster = k as u32;
+                g.set_glyph_props(i.2);
+                g.set_unicode_props(i.3);
+                g
+            })
+            .collect();
+        b.len = len;
+        b.have_positions = true;
+        apply(plan, face, &mut b);
+        let has = b.scratch_flags & HB_BUFFER_SCRATCH_FLAG_HAS_GPOS_ATTACHMENT != 0;
+        (
+            b.info.iter().map(|i| i.glyph_id).collect(),
+            b.pos.iter().map(rd_pos).collect(),
+            has,
+        )
+    }
+
+    /// `apply_kerx` of a compiled plan.
+    pub fn plan_apply_kerx(plan: &hb_ot_shape_plan_t) -> bool {
+        plan.apply_kerx
+    }
+
+    /// `glyphs_kerning(left, right).map(i32::from).unwrap_or(0)` of the n-th subtable of the face's `kerx`
+    /// (None when there is no such subtable), with its format number.
+    pub fn subtable_kerning(face: &hb_font_t, n: usize, left: u16, right: u16) -> Option<(u8, i32)> {
+        let sub = face.tables().kerx?.subtables.into_iter().nth(n)?;
+        let fmt = match sub.format {
+            kerx::Format::Format0(_) => 0,
+            kerx::Format::Format1(_) => 1,
+            kerx::Format::Format2(_) => 2,
+            kerx::Format::Format4(_) => 4,
+            kerx::Format::Format6(_) => 6,
+        };
+        Some((
+            fmt,
+            sub.glyphs_kerning(GlyphId(left), GlyphId(right))
+                .map(i32::from)
+                .unwrap_or(0),
+        ))
+    }
 }
